@@ -1,6 +1,9 @@
 //! Serde round trips over a caller-supplied transport (C20): a simulator-owned
 //! token transport (announced length, entries, permuted delivery, lying size
-//! hints) and the real bincode codec over a byte buffer.
+//! hints), the real bincode codec over a byte buffer, and the real serde_json
+//! codec (a self-describing text format that neither announces nor hints a
+//! length; also through `serde_json::Value`, which delivers keys in
+//! lexicographic order with an exact hint).
 
 use crate::env::{Injected, Watchdog};
 use crate::exec::{Pre, World};
@@ -285,9 +288,160 @@ fn sim_panic(p: &Box<dyn std::any::Any + Send>) -> bool {
     p.is::<Injected>() || p.is::<Watchdog>()
 }
 
+/// The entries of a JSON object exactly as they appear in the text (order and repeats preserved).
+struct JsonPairs(Vec<(u64, u64)>);
+impl<'de> Deserialize<'de> for JsonPairs {
+    fn deserialize<D: serde::Deserializer<'de>>(d: D) -> Result<Self, D::Error> {
+        struct Vis;
+        impl<'de> Visitor<'de> for Vis {
+            type Value = JsonPairs;
+            fn expecting(&self, f: &mut fmt::Formatter<'_>) -> fmt::Result {
+                f.write_str("a JSON object")
+            }
+            fn visit_map<A: MapAccess<'de>>(self, mut a: A) -> Result<JsonPairs, A::Error> {
+                let mut v = Vec::new();
+                while let Some(e) = a.next_entry::<u64, u64>()? {
+                    v.push(e);
+                }
+                Ok(JsonPairs(v))
+            }
+        }
+        d.deserialize_map(Vis)
+    }
+}
+
+fn json_text(ents: &[(u64, u64)], is_map: bool, spaced: bool) -> String {
+    let (open, close) = if is_map { ('{', '}') } else { ('[', ']') };
+    let mut t = String::new();
+    t.push(open);
+    for (i, (k, v)) in ents.iter().enumerate() {
+        if i > 0 {
+            t.push(',');
+        }
+        if spaced {
+            t.push_str("\n  ");
+        }
+        if is_map {
+            t.push_str(&format!("\"{k}\":{}{v}", if spaced { " " } else { "" }));
+        } else {
+            t.push_str(&format!("{k}"));
+        }
+    }
+    if spaced {
+        t.push('\n');
+    }
+    t.push(close);
+    t
+}
+
+/// The JSON leg shared by maps and sets: encode with the real serde_json, account for the emitted entries,
+/// let the transport reorder / duplicate / truncate / corrupt the text, decode with the real serde_json.
+/// `mode` 1: text as emitted order-permuted, compact; 2: the same with whitespace, read through `from_reader`;
+/// 3: through `serde_json::Value` (keys in lexicographic order, exact size hint).
+fn json_leg<S: Serialize, D: for<'de> Deserialize<'de>, K: SimK, V: SimV>(what: &str, src: &S, cx: &mut Cx<K, V>, cfg: &SerdeCfg, pre: &Snap, len: usize, is_map: bool, prefill: impl FnOnce() -> D) -> Option<Result<D, String>> {
+    cx.probe("serde_json_transport");
+    let text = match serde_json::to_string(src) {
+        Ok(t) => t,
+        Err(e) => {
+            violate("round-trip", format!("serde_json could not encode the {what}: {e}"));
+            return None;
+        }
+    };
+    // entry accounting on the emitted text
+    let emitted: Vec<(u64, u64)> = if is_map {
+        match serde_json::from_str::<JsonPairs>(&text) {
+            Ok(p) => p.0,
+            Err(e) => {
+                violate("entry-accounting", format!("{what}: the emitted JSON text {text:?} is not an object of integers: {e}"));
+                return None;
+            }
+        }
+    } else {
+        match serde_json::from_str::<Vec<u64>>(&text) {
+            Ok(p) => p.into_iter().map(|k| (k, 0)).collect(),
+            Err(e) => {
+                violate("entry-accounting", format!("{what}: the emitted JSON text {text:?} is not an array of integers: {e}"));
+                return None;
+            }
+        }
+    };
+    if emitted.len() != len {
+        violate("entry-accounting", format!("{what}: {} entries emitted as JSON but len() is {len}", emitted.len()));
+        return None;
+    }
+    let mut seen: Vec<u64> = Vec::new();
+    for (kw, vw) in &emitted {
+        let (kid, vid) = (kw & ID_MASK, vw & ID_MASK);
+        if !pre.iter().any(|e| (K::ANON || e.kid == kid) && (!is_map || V::ANON || e.vid == vid)) {
+            violate("entry-accounting", format!("{what}: an emitted entry (key #{kid}, value #{vid}) is not one of the container's"));
+            return None;
+        }
+        if !K::ANON && seen.contains(&kid) {
+            violate("entry-accounting", format!("{what}: key #{kid} emitted twice"));
+            return None;
+        }
+        seen.push(kid);
+    }
+    let mut ents = permute(emitted, cfg.permute);
+    if let Some(d) = cfg.dup_at {
+        if !ents.is_empty() {
+            let e = ents[d as usize % ents.len()];
+            let at = (d as usize / 3) % (ents.len() + 1);
+            ents.insert(at, e);
+            cx.probe("serde_entry_duplicated");
+        }
+    }
+    let mut bytes = json_text(&ents, is_map, cfg.json == 2).into_bytes();
+    if let Some(t) = cfg.truncate {
+        bytes.truncate(t as usize);
+    }
+    if let Some(b) = cfg.flip_bit {
+        if !bytes.is_empty() {
+            let b = b as usize % (bytes.len() * 8);
+            bytes[b / 8] ^= 1 << (b % 8);
+        }
+    }
+    let in_place = cfg.in_place;
+    let mode = cfg.json;
+    let r = catch_unwind(AssertUnwindSafe(move || -> Result<D, String> {
+        if mode == 3 {
+            let v: serde_json::Value = serde_json::from_slice(&bytes).map_err(|e| e.to_string())?;
+            if in_place {
+                let mut target = prefill();
+                D::deserialize_in_place(v, &mut target).map_err(|e| e.to_string())?;
+                Ok(target)
+            } else {
+                serde_json::from_value::<D>(v).map_err(|e| e.to_string())
+            }
+        } else if in_place {
+            let mut target = prefill();
+            let mut de = serde_json::Deserializer::from_slice(&bytes);
+            D::deserialize_in_place(&mut de, &mut target).map_err(|e| e.to_string())?;
+            de.end().map_err(|e| e.to_string())?;
+            Ok(target)
+        } else if mode == 2 {
+            serde_json::from_reader::<_, D>(&bytes[..]).map_err(|e| e.to_string())
+        } else {
+            serde_json::from_slice::<D>(&bytes).map_err(|e| e.to_string())
+        }
+    }));
+    Some(match r {
+        Ok(Ok(d)) => Ok(d),
+        Ok(Err(e)) => Err(format!("serde_json decode error: {e}")),
+        Err(p) => {
+            if sim_panic(&p) {
+                resume_unwind(p);
+            }
+            Err("serde_json decode panicked".into())
+        }
+    })
+}
+
 pub fn map_roundtrip<K: SimK, V: SimV, const C1: usize, const C2: usize>(m: &Map<K, V, C1>, cx: &mut Cx<K, V>, cfg: &SerdeCfg, pre: &Snap) {
     let aw = cx.cfg.alloc_window && cfg.bincode;
-    let diag = cfg.truncate.is_some() || cfg.flip_bit.is_some() || cfg.ser_fail_at.is_some() || cfg.de_fail_at.is_some() || cfg.dup_at.is_some() || (!cfg.bincode && cfg.hint >= 2);
+    let json = cfg.json > 0 && !cfg.bincode;
+    // (the JSON codec has no announced length, no hint and no token-level error injection: only what acts on the text counts)
+    let diag = cfg.truncate.is_some() || cfg.flip_bit.is_some() || cfg.dup_at.is_some() || (!json && (cfg.ser_fail_at.is_some() || cfg.de_fail_at.is_some() || (!cfg.bincode && cfg.hint >= 2)));
     // (an unusual or under-reporting size hint is not a transport fault here: overflow must be loud whatever the hint says)
     let no_transport_fault = cfg.truncate.is_none() && cfg.flip_bit.is_none() && cfg.ser_fail_at.is_none() && cfg.de_fail_at.is_none() && cfg.dup_at.is_none();
     let len = pre.len();
@@ -324,7 +478,19 @@ pub fn map_roundtrip<K: SimK, V: SimV, const C1: usize, const C2: usize>(m: &Map
         cx.probe("serde_transport_fault_injected");
     }
     let decoded: Result<Map<K, V, C2>, String>;
-    if cfg.bincode {
+    if cfg.json > 0 && !cfg.bincode {
+        let in_place_fill = cfg.permute as usize % 3;
+        let Some(r) = json_leg::<_, Map<K, V, C2>, K, V>("map", m, cx, cfg, pre, len, true, move || {
+            let mut target: Map<K, V, C2> = Map::new();
+            for i in 0..in_place_fill.min(C2) {
+                target.insert(K::make(200 + i as u32, 0), V::make(77, 0));
+            }
+            target
+        }) else {
+            return;
+        };
+        decoded = r;
+    } else if cfg.bincode {
         let bc = bincode::config::legacy();
         let mut buf = [0u8; 8192];
         let n = match win!(aw, bincode::serde::encode_into_slice(m, &mut buf, bc)) {
@@ -446,7 +612,9 @@ pub fn map_roundtrip<K: SimK, V: SimV, const C1: usize, const C2: usize>(m: &Map
 
 pub fn set_roundtrip<K: SimK, V: SimV, const C1: usize, const C2: usize>(s: &Set<K, C1>, cx: &mut Cx<K, V>, cfg: &SerdeCfg, pre: &Snap) {
     let aw = cx.cfg.alloc_window && cfg.bincode;
-    let diag = cfg.truncate.is_some() || cfg.flip_bit.is_some() || cfg.ser_fail_at.is_some() || cfg.de_fail_at.is_some() || cfg.dup_at.is_some() || (!cfg.bincode && cfg.hint >= 2);
+    let json = cfg.json > 0 && !cfg.bincode;
+    // (the JSON codec has no announced length, no hint and no token-level error injection: only what acts on the text counts)
+    let diag = cfg.truncate.is_some() || cfg.flip_bit.is_some() || cfg.dup_at.is_some() || (!json && (cfg.ser_fail_at.is_some() || cfg.de_fail_at.is_some() || (!cfg.bincode && cfg.hint >= 2)));
     // (an unusual or under-reporting size hint is not a transport fault here: overflow must be loud whatever the hint says)
     let no_transport_fault = cfg.truncate.is_none() && cfg.flip_bit.is_none() && cfg.ser_fail_at.is_none() && cfg.de_fail_at.is_none() && cfg.dup_at.is_none();
     let len = pre.len();
@@ -479,7 +647,19 @@ pub fn set_roundtrip<K: SimK, V: SimV, const C1: usize, const C2: usize>(s: &Set
         cx.probe("serde_transport_fault_injected");
     }
     let decoded: Result<Set<K, C2>, String>;
-    if cfg.bincode {
+    if cfg.json > 0 && !cfg.bincode {
+        let in_place_fill = cfg.permute as usize % 3;
+        let Some(r) = json_leg::<_, Set<K, C2>, K, V>("set", s, cx, cfg, pre, len, false, move || {
+            let mut target: Set<K, C2> = Set::new();
+            for i in 0..in_place_fill.min(C2) {
+                target.insert(K::make(200 + i as u32, 0));
+            }
+            target
+        }) else {
+            return;
+        };
+        decoded = r;
+    } else if cfg.bincode {
         let bc = bincode::config::legacy();
         let mut buf = [0u8; 8192];
         let n = match win!(aw, bincode::serde::encode_into_slice(s, &mut buf, bc)) {
